@@ -45,7 +45,19 @@ def same_values(a, b, tol=1e-5):
 
 def op_case(ctx: Ctx, stream: str, i: int) -> None:
     rng = ctx.rng(stream, i)
-    if rng.random() < 0.5:
+    if stream == 'inverse':
+        # a lazy inverse (iterative solve needing several steps), alone or inside a composition
+        s = gen.S(rng.choice([5, 6, 8]))
+        a = None
+        while a is None or a.band_values.shape[-1] < 2:
+            a = gen.mk_toeplitz(rng, s, spd=True)
+        op = a.I
+        k = rng.random()
+        if k < 0.3:
+            op = op @ gen.mk_diagonal(rng, s)
+        elif k < 0.6:
+            op = gen.mk_homothety(rng, s) @ op @ a.T
+    elif rng.random() < 0.5:
         s = gen.random_structure(rng)
         op = gen.gen_step(rng, s, 1)
     else:
@@ -64,18 +76,35 @@ def op_case(ctx: Ctx, stream: str, i: int) -> None:
     if not gen.same_structure(jax.eval_shape(lambda: y0), op.out_structure()):
         ctx.fail(stream, i, f'out-structure-vs-eager:{name}', 'eager result does not have out_structure()', cfg)
     # jit over a closure
-    st, y1 = safe(lambda: jax.jit(lambda v: op.mv(v))(x))
+    f1 = jax.jit(lambda v: op.mv(v))
+    f2 = equinox.filter_jit(lambda o, v: o.mv(v))
+    st, y1 = safe(lambda: f1(x))
     if st != 'ok' or not same_values(y0, y1):
         ctx.fail(stream, i, f'jit-closure:{name}', f'jit over a closure differs from eager ({st}: {str(y1)[:100]})', cfg)
     # filtering jit with the operator as argument
     if not has_bool_mask(op):
-        st, y2 = safe(lambda: equinox.filter_jit(lambda o, v: o.mv(v))(op, x))
+        st, y2 = safe(lambda: f2(op, x))
         if st != 'ok' or not same_values(y0, y2):
             ctx.fail(stream, i, f'filter-jit:{name}', f'filter_jit with the operator as argument differs from eager '
                      f'({st}: {str(y2)[:100]})', cfg)
         ctx.count('mode:filter_jit')
     else:
         ctx.count('mode:filter_jit-skipped-boolean-mask')
+    # an operator is a value: applying it again — eagerly or through the functions traced above — while a
+    # different ambient solver configuration is active gives the same result
+    import lineax as lx
+    from furax._base.config import Config
+    with Config(solver=lx.CG(rtol=1e-12, atol=1e-12, max_steps=1), solver_callback=lambda sol: None):
+        modes = [('eager', lambda: op.mv(x)), ('jit-closure', lambda: f1(x))]
+        if not has_bool_mask(op):
+            modes.append(('filter-jit', lambda: f2(op, x)))
+        for mode, fn in modes:
+            st, yb = safe(fn)
+            if st != 'ok' or not same_values(y0, yb):
+                ctx.fail(stream, i, f'ambient-config-changes-result:{mode}:{name}',
+                         f'{mode} application inside an unrelated Config block differs from the application outside '
+                         f'({st}: {str(yb)[:100]})', cfg)
+                break
     # flatten / unflatten
     st, op2 = safe(lambda: jax.tree.unflatten(*reversed(jax.tree.flatten(op))))
     if st != 'ok':
@@ -123,6 +152,9 @@ def run(ctx: Ctx) -> None:
     for i in range(120 if q else 2500):
         if ctx.want('op', i):
             op_case(ctx, 'op', i)
+    for i in range(16 if q else 300):
+        if ctx.want('inverse', i):
+            op_case(ctx, 'inverse', i)
     for i in range(8 if q else 60):
         if ctx.want('landscape', i):
             landscape_case(ctx, 'landscape', i)
